@@ -189,6 +189,36 @@ HISTORY_R7 = {
     "C20-r7m2": "missed at first -> individuals registered again later under a fitness function that fills and returns one preallocated list",
 }
 
+HISTORY_R8 = {
+    "C01-r8m1": "missed at first -> searches warm-started from individuals of ANOTHER representation object (raw programs, own individuals, foreign individuals, a mixture)",
+    "C01-r8m2": "missed at first -> a handed-down value whose field is declared AFTER a generated field of another type (levels grammar: LTail)",
+    "C02-r8m1": "missed at first -> values handed down are not meant for same-named fields of productions further down (levels grammar: LBox / LCoin)",
+    "C04-r8m1": "missed at first -> windows (IntervalRange) in the language corpus: every admissible window is reachable",
+    "C05-r8m1": "missed at first -> productions written as plain classes in the corpus of real classes, independent supplied-production oracle; the unchanged usable_grammar() failed on them (fixed: 2f7ccb8)",
+    "C07-r8m1": "first detected only as a broken correspondence (no failing input) -> a dynamic-SGE genotype is mapped again after its offspring were made and mapped",
+    "C08-r8m1": "missed at first -> a warm start from ONE list of seed programs handed to every run of the worker",
+    "C08-r8m2": "missed at first -> ONE grammar object through several searches, a grammar with a production that fails in some contexts",
+    "C09-r8m1": "missed at first -> a multi-objective fitness function that fills and returns one preallocated list of floats, steps on partly evaluated pools",
+    "C10-r8m1": "missed at first -> Union alternatives that WRAP a recursive symbol (list, bounded list, tuple) in the corpus",
+    "C10-r8m2": "missed at first -> the binding-context language with a two-level hierarchy (every direct production of the body type is abstract), context handed down through initial_values",
+    "C11-r8m1": "missed at first -> programs that hold CLASSES of the grammar as plain values; the unchanged library mislabelled ABC-derived ones (fixed: 8365b1f); patch rebased onto the fix",
+    "C11-r8m2": "missed at first -> deciders built from ANOTHER grammar object over the same classes (other depth mode, usable sub-grammar)",
+    "C12-r8m1": "missed at first -> one tracker through several searches (warm start, the same algorithm object twice, individuals evaluated before the search)",
+    "C12-r8m2": "missed at first -> multi-objective problems declared with ONE bool that says maximise",
+    "C13-r8m1": "missed at first -> production weights learnt between two generations (GE / SGE with the weight-aware decider)",
+    "C14-r8m1": "missed at first -> random search, (1+1) and GP on the parallel evaluator",
+    "C14-r8m2": "missed at first -> searches over real trees of grammars whose smallest program is three levels deep (initialisers start at depth 1)",
+    "C15-r8m2": "missed at first -> the adaptive steps (feedback-weighted parallel step, adaptive mutation / crossover) yield what they are asked for",
+    "C16-r8m1": "missed at first -> evaluation budgets that end in the middle of a generation, elitism as the LAST slice, a fitness of many values",
+    "C16-r8m2": "missed at first -> one-bool multi-objective problems (maximise / minimise all) under elitism",
+    "C17-r8m1": "missed at first -> tournaments over real labelled trees of different depths with fitness values of the order of 1e-26",
+    "C17-r8m2": "missed at first -> epsilon-lexicase on pools with missing (NaN) objectives, judged along the case order the event drew",
+    "C18-r8m1": "missed at first -> pop_random on lists of 256..1000 elements, draws at both ends",
+    "C18-r8m2": "missed at first -> every kind of seed random.Random accepts (int, float, str, bytes) in several interpreter processes",
+    "C19-r8m2": "missed at first -> weighted nested abstract types that are deeper than every concrete class (expansion depthing) beside a switched-off production",
+    "C20-r8m1": "missed at first -> logs of 11, 12 and 26 objectives with the default columns",
+}
+
 
 def main():
     old = (VERIF / "seeded/INDEX.md").read_text() if (VERIF / "seeded/INDEX.md").exists() else ""
@@ -203,6 +233,7 @@ def main():
     hist.update(HISTORY_R5)
     hist.update(HISTORY_R6)
     hist.update(HISTORY_R7)
+    hist.update(HISTORY_R8)
     rows, caught = [], 0
     dirs = sorted(p for p in (VERIF / "seeded").iterdir() if p.is_dir())
     for d in dirs:
@@ -227,8 +258,8 @@ against scratch copies (`VERIF_REPO`).  All {n} changes keep the repository's fa
 Round 1: {r1} changes (`Cxx-mK`); round 2: {rn(2)} changes (`Cxx-r2mK`), whose authors were asked to look beyond the obvious function;
 round 3: {rn(3)} changes (`Cxx-r3mK`), whose authors were told that a randomised differential test on small inputs exists and asked for
 rarely used library features, narrow triggers and state carried between calls; round 4: {rn(4)} changes (`Cxx-r4mK`), same brief plus the list of
-everything tried before for that property ("find something genuinely different"); rounds 5, 6 and 7: {rn(5)}, {rn(6)} and {rn(7)} changes
-(`Cxx-r5mK` ... `Cxx-r7mK`), same brief, each with the ideas of all earlier rounds listed as already tried.
+everything tried before for that property ("find something genuinely different"); rounds 5 to 8: {rn(5)}, {rn(6)}, {rn(7)} and {rn(8)} changes
+(`Cxx-r5mK` ... `Cxx-r8mK`), same brief, each with the ideas of all earlier rounds listed as already tried.
 
 **{caught} of {n} are detected by the quick check of the property they break** (the `history` column says which were missed on their first evaluation and what was strengthened).
 
